@@ -304,3 +304,56 @@ Proof.
   destruct (evt_from_units (c_dt RN c) m _ (Nn _) Hpost) as [lq [Eq [Lq Hq]]].
   exists lp, lq. rewrite Ep, Eq. repeat split; try assumption; intros u; rewrite <- ev_peek_since_last; [apply Hp | apply Hq].
 Qed.
+
+(* ================================================================== hyperparameters per parameter element *)
+Lemma map3_ext {A B C D : Type} (f g : A -> B -> C -> D) la lb lc :
+  (forall a b c, f a b c = g a b c) -> map3 f la lb lc = map3 g la lb lc.
+Proof.
+  intros H. revert lb lc; induction la as [|a t IH]; intros lb lc; [reflexivity|].
+  destruct lb; [reflexivity|]. destruct lc; [reflexivity|]. cbn. rewrite H, IH. reflexivity.
+Qed.
+Lemma map3_const {A B C D : Type} (f : A -> B -> C -> D) (x : C) la lb :
+  map3 f la lb (map (fun _ => x) la) = map2 (fun a b => f a b x) la lb.
+Proof.
+  revert lb; induction la as [|a t IH]; intros lb; [reflexivity|]. destruct lb; [reflexivity|]. cbn. rewrite IH. reflexivity.
+Qed.
+Lemma set_tr_same (c : cellcfg RN) : set_tr RN c (c_tr RN c) = c.
+Proof. destruct c; reflexivity. Qed.
+
+(* a cell whose elements all carry the cell's one trainer value is the plain cell *)
+Theorem cell_step_ps_const red c st i :
+  cell_step_ps RN red c (map (fun _ => c_tr RN c) (c_syn RN c)) st i = cell_step RN red c st i.
+Proof. unfold cell_step_ps, cell_step. rewrite map3_const, set_tr_same. reflexivity. Qed.
+
+(* the monitors do not depend on the trainers' hyperparameters *)
+Lemma cell_step_ps_state red c trs st i : fst (cell_step_ps RN red c trs st i) = fst (cell_step RN red c st i).
+Proof. reflexivity. Qed.
+
+(* the flagship statement with per-element hyperparameters (tensor-valued kernel keyword arguments): every element's
+   own trainer value is applied to the element's true-time t_delta values *)
+Theorem cell_step_ps_true_times red c trs n m prefix i :
+  shaped n m (prefix ++ [i]) ->
+  snd (cell_step_ps RN red c trs (state_after red c (mkCS RN None None) prefix) i) =
+  map3 (fun s d tr => fwd RN red tr (si_sig RN i) (spec_tds (set_tr RN c tr) (prefix ++ [i]) s d))
+       (c_syn RN c) (si_delay RN i) trs.
+Proof.
+  intros Hs. unfold cell_step_ps. cbn [snd]. rewrite state_after_evt. cbn [cs_pre cs_post].
+  assert (Hpre : Forall (fun o => length o = n) (map (si_pre RN) (prefix ++ [i]))).
+  { apply Forall_map. eapply Forall_impl; [|exact Hs]. intros a [H _]; exact H. }
+  assert (Hpost : Forall (fun o => length o = m) (map (si_post RN) (prefix ++ [i]))).
+  { apply Forall_map. eapply Forall_impl; [|exact Hs]. intros a [_ H]; exact H. }
+  assert (Nn : forall (f : stepin RN -> list bool), map f (prefix ++ [i]) <> []).
+  { intros f. rewrite map_app. intros E. apply app_eq_nil in E. destruct E; discriminate. }
+  destruct (evt_from_units (c_dt RN c) n _ (Nn _) Hpre) as [lp [Ep [_ Hp]]].
+  destruct (evt_from_units (c_dt RN c) m _ (Nn _) Hpost) as [lq [Eq [_ Hq]]].
+  unfold evt_from in Ep, Eq. rewrite map_app, fold_left_app in Ep, Eq. cbn [map fold_left] in Ep, Eq.
+  unfold evt_from. inversion Ep as [Ep']. inversion Eq as [Eq']. clear Ep Eq.
+  apply map3_ext. intros s d tr. f_equal. unfold tds_of, spec_tds. cbn [set_tr c_B c_npre c_npost c_tr c_dt].
+  apply map_ext. intros b. apply map_ext. intros io.
+  rewrite Ep', Eq', Hp, Hq. unfold tdelta_of, spec_tdelta. cbn [set_tr c_tr c_dt].
+  assert (HL : forall u v, length (unit_hist u (map (si_pre RN) (prefix ++ [i]))) =
+                           length (unit_hist v (map (si_post RN) (prefix ++ [i])))).
+  { intros. unfold unit_hist. rewrite !map_length. reflexivity. }
+  destruct tr; try (apply tdelta_model_true; apply HL).
+  rewrite <- tdelta_adj_zero. apply tdelta_model_true. apply HL.
+Qed.
